@@ -222,9 +222,10 @@ def tables_for(n, tier, seed):
     # weight 10 = the part-of-speech total (probability 1, information content 0)
     allt = list(itertools.product((1, 2, 5), repeat=n))
     allt += [t for t in itertools.product((1, 2, 10), repeat=n) if 10 in t and (n <= 2 or t.count(10) <= 2)]
-    if n <= 3 or tier == 'thorough':
+    if n <= 3:
         return allt
-    return [allt[0], allt[-1]] + [allt[(7 * k + seed) % len(allt)] for k in range(1, 7)]
+    k_ = 16 if tier == 'thorough' else 7
+    return [allt[0], allt[-1]] + [allt[(7 * k + seed) % len(allt)] for k in range(1, k_)]
 
 
 def space(tier, seed):
